@@ -60,7 +60,7 @@ def lastDef (defs : Attrs) (a : String) : Option String := (defs.reverse.find? (
 theorem lastDef_append (x y : Attrs) (a : String) : lastDef (x ++ y) a = (lastDef y a).orElse (fun _ => lastDef x a) := by
   unfold lastDef
   rw [List.reverse_append, List.find?_append]
-  cases h : List.find? (fun kv => kv.1 = a) y.reverse <;> simp [h]
+  cases h : List.find? (fun kv => kv.1 = a) y.reverse <;> simp
 
 theorem lastDef_single (k v a : String) : lastDef [(k, v)] a = if a = k then some v else none := by
   unfold lastDef
@@ -214,7 +214,7 @@ theorem fold_spec : ∀ (es : List Entry) (s : Store) (a : String),
         by_cases hn : className as = ""
         · simp only [hn, if_true, classDefs]
           have : ¬ ("" = c ∧ c ≠ "") := by intro ⟨h1, h2⟩; exact h2 h1.symm
-          simp [this]
+          simp
         · simp only [hn, if_false, table_putTable]
           by_cases h : c = className as
           · subst h
